@@ -108,7 +108,11 @@ Inductive ex :=
 | EInt (z : Z)
 | ECount (k : cnt)
 | EBin (o : bop) (a b : ex)
-| EIdx (c : collref) (i : nat) (m : string).    (* e.Coll("bank")[i].m() : bounds-checked at(i) on the fetched collection *)
+| EIdx (c : collref) (i : nat) (m : string)     (* e.Coll("bank")[i].m() : bounds-checked at(i) on the fetched collection *)
+| EDbl (text : string) (n : Z) (d : positive)   (* floating literal *)
+| EDiv (a b : ex)                               (* a / b : Python's true division *)
+| ENeg (a : ex)                                 (* -a *)
+| EFun (f : string) (a : ex).                   (* one-argument math function, f the C++ name *)
 
 Definition nm (base : string) (n : nat) : string := base +++ dec_nat n.
 
@@ -202,6 +206,20 @@ Definition tcount_stmts (idiom : string) (k : cnt) (n : nat) : stmts :=
                 (fetch_lines idiom (c_ctype (k_coll k)) (c_bank (k_coll k))))
         (one_stmt (tcount_loop k n)).
 
+(* the type the translator assigns (most_accurate_type over int/double; comparisons are bool) *)
+Fixpoint ex_type (e : ex) : string :=
+  match e with
+  | EInt _ => "int"
+  | ECount k => agg_type k
+  | EBin o a b => if bop_is_cmp o then "bool"
+                   else if String.eqb (ex_type a) "int" && String.eqb (ex_type b) "int" then "int" else "double"
+  | EIdx _ _ _ | EDbl _ _ _ | EDiv _ _ | EFun _ _ => "double"
+  | ENeg a => ex_type a
+  end.
+(* visit_BinOp for `/` at event level: the same rule as inside a lambda (div_needs_cast) *)
+Definition ex_div_needs_cast (a b : ex) : bool := negb (String.eqb (ex_type a) "double" || String.eqb (ex_type b) "double").
+
+
 (* declarations for the current block, statements for the current block, value expression, next index *)
 Fixpoint te (idiom : string) (e : ex) (n : nat) : list decl * stmts * cexp * nat :=
   match e with
@@ -216,16 +234,13 @@ Fixpoint te (idiom : string) (e : ex) (n : nat) : list decl * stmts * cexp * nat
        one_stmt (SFetch idiom (nm (c_base c) n) (c_ctype c) (c_bank c) (fetch_lines idiom (c_ctype c) (c_bank c))),
        CMeth (CMeth (CVar (nm (c_base c) n)) true "at" (CCons (CInt (Z.of_nat i)) CNil)) (c_arrow c) m CNil,
        S n)
-  end.
-
-(* the type the translator assigns (most_accurate_type over int/double; comparisons are bool) *)
-Fixpoint ex_type (e : ex) : string :=
-  match e with
-  | EInt _ => "int"
-  | ECount k => agg_type k
-  | EBin o a b => if bop_is_cmp o then "bool"
-                   else if String.eqb (ex_type a) "int" && String.eqb (ex_type b) "int" then "int" else "double"
-  | EIdx _ _ _ => "double"
+  | EDbl t z d => ([], SNil, CDbl t z d, n)
+  | EDiv a b =>
+      let '(da, sa, ca, n1) := te idiom a n in
+      let '(db, sb, cb, n2) := te idiom b n1 in
+      (da ++ db, app_stmts sa sb, CBin "/" (if ex_div_needs_cast a b then CCast "double" ca else ca) cb, n2)
+  | ENeg a => let '(da, sa, ca, n1) := te idiom a n in (da, sa, CUn "-" ca, n1)
+  | EFun f a => let '(da, sa, ca, n1) := te idiom a n in (da, sa, CCall f (CCons ca CNil), n1)
   end.
 
 Definition col_name (n : nat) : string := nm "_col1" n.   (* = mem_name "col1" n *)
@@ -248,7 +263,10 @@ Inductive column :=
 Definition row := list (string * column).                      (* branch name, column *)
 
 Fixpoint ex_size (e : ex) : nat :=
-  match e with EInt _ => 0 | ECount k => 3 + gsize (k_guard k) + agg_nifs (k_agg k) | EBin _ a b => ex_size a + ex_size b | EIdx _ _ _ => 1 end.
+  match e with
+  | EInt _ | EDbl _ _ _ => 0 | ECount k => 3 + gsize (k_guard k) + agg_nifs (k_agg k)
+  | EBin _ a b | EDiv a b => ex_size a + ex_size b | EIdx _ _ _ => 1 | ENeg a | EFun _ a => ex_size a
+  end.
 Definition col_size (c : column) : nat :=
   match c with ColScalar e => ex_size e | ColVec _ g body => 2 + gsize g + nifs body | ColFirst _ g _ _ => 3 + gsize g end.
 Fixpoint row_size (r : row) : nat := match r with [] => 0 | (_, c) :: t => col_size c + row_size t end.
@@ -426,6 +444,10 @@ Fixpoint de (ev : event) (e : ex) : res value :=
   | ECount k => dcount ev k
   | EBin o a b => rdo x <- de ev a; rdo y <- de ev b; arith (op_str o) x y
   | EIdx c i m => didx ev c i m
+  | EDbl _ n d => ROk (VDbl (Qred (n # d)%Q))
+  | EDiv a b => rdo x <- de ev a; rdo y <- de ev b; arith "/" (if ex_div_needs_cast a b then conv "double" x else x) y
+  | ENeg a => rdo x <- de ev a; unary "-" x
+  | EFun f a => rdo x <- de ev a; ROk (VSym f [math_arg x])
   end.
 (* The emitted code works in two phases: first the statements of every sub-expression (retrievals and loops, left to
    right), then the value expression (where at() is evaluated).  `dstm` is what can go wrong in the first phase; `dex` is
@@ -438,6 +460,9 @@ Fixpoint dstm (ev : event) (e : ex) : res unit :=
   | ECount k => rdo _ <- dcount ev k; ROk tt
   | EBin _ a b => rdo _ <- dstm ev a; dstm ev b
   | EIdx c _ _ => match assoc_ss (c_ctype c, c_bank c) (ev_colls ev) with None => RFault FRetrieve | Some _ => ROk tt end
+  | EDbl _ _ _ => ROk tt
+  | EDiv a b => rdo _ <- dstm ev a; dstm ev b
+  | ENeg a | EFun _ a => dstm ev a
   end.
 Definition dex (ev : event) (e : ex) : res value := rdo _ <- dstm ev e; de ev e.
 
@@ -609,6 +634,12 @@ Fixpoint d_ex_fuel (fuel : nat) (s : sexp) : option ex :=
     | SList [SAtom "bin"; SAtom op; a; b] =>
         match bop_of op, d_ex_fuel f a, d_ex_fuel f b with
         | Some o, Some a', Some b' => Some (EBin o a' b') | _, _, _ => None end
+    | SList [SAtom "dbl"; SAtom t; n; d] =>
+        match d_Z n, d_Z d with Some n', Some (Zpos d') => Some (EDbl t n' d') | _, _ => None end
+    | SList [SAtom "div"; a; b] =>
+        match d_ex_fuel f a, d_ex_fuel f b with Some a', Some b' => Some (EDiv a' b') | _, _ => None end
+    | SList [SAtom "neg"; a] => option_map ENeg (d_ex_fuel f a)
+    | SList [SAtom "fun"; SAtom fn; a] => option_map (EFun fn) (d_ex_fuel f a)
     | SList [SAtom "idx"; SAtom base; SAtom ct; SAtom bank; ar; i; SAtom m] =>
         match d_bool ar, d_nat i with
         | Some ar', Some i' => Some (EIdx {| c_base := base; c_ctype := ct; c_bank := bank; c_arrow := ar' |} i' m)
